@@ -39,7 +39,20 @@ def gen(rng, d, thorough):
         for _ in range(rng.randrange(1, 120)):
             r = rng.random()
             k = rng.choice(pool) if rng.random() < 0.85 else rng.randrange(1, 65000)
-            if r < 0.55:
+            if r < 0.08:
+                # range insert: ascending, unsorted, with adjacent / distant duplicates; into an empty, a cleared or a filled set
+                m = rng.randrange(1, 7)
+                ks = [rng.choice(pool) if rng.random() < 0.7 else rng.randrange(1, 65000) for _ in range(m)]
+                sh = rng.random()
+                if sh < 0.5:
+                    ks.sort()
+                if sh < 0.3 and len(ks) > 1:
+                    j = rng.randrange(len(ks) - 1); ks[j + 1] = ks[j]      # ascending with an adjacent duplicate
+                if rng.random() < 0.3:
+                    lines.append('clr')
+                lines.append('insr ' + ' '.join(map(str, ks)))
+                lines.append('arr')
+            elif r < 0.55:
                 lines.append('ins %d' % k)
             elif r < 0.9:
                 lines.append('fnd %d' % k)
@@ -70,6 +83,12 @@ def make_oracle(d):
             return (out == ('has=1 pos=%d' % t if t in tr else 'has=0 pos=0'), None)   # 'pos' carries the tag of the entry returned
         if w[0] == 'new':
             state['set'] = set(); return (out == 'ok', None)
+        if w[0] == 'insr':
+            for k in map(int, w[1:]):
+                if k in state['set']:
+                    break                       # the range insert stops at the first refused element
+                state['set'].add(k)
+            return (out.split()[0] == 'sz=%d' % len(state['set']), None)
         if w[0] == 'ins':
             k = int(w[1]); new = k not in state['set']; state['set'].add(k)
             return (out.split()[0] == ('1' if new else '0') and out.split()[1] == 'sz=%d' % len(state['set']), None)
